@@ -45,6 +45,15 @@ def check(run: Run) -> None:
     xs = [h for h in corpus.harvested() if any(t in h["src"] for t in "$!?`") and "type " not in h["src"] and "except*" not in h["src"] and "[T" not in h["src"]]
     for h in rng.sample(xs, min(cfg["xsh"], len(xs))):
         progs.append({"src": h["src"], "mode": h["mode"], "need": 0, "origin": "harvest"})
+    # rejected programs without gated syntax: the error (message, span, text) must not depend on the options either
+    BAD = ["if x\n    pass\n", "def f()\n    pass\n", "class C\n    pass\n", "for i in y\n    pass\n", "while a\n  b\n", "with a as b\n    c\n",
+           "try\n    a\nfinally:\n    b\n", "x = (1,\n", "f(a b)\n", "a = = 1\n", "lambda x y: 0\n", "match x:\n    case 1\n        pass\n",
+           "if a:\npass\n", "  x = 1\n", "x = 1 +\n", "print(a, b=1, c)\n", "def f(a=1, b): pass\n", "x = [i for i in]\n", "import\n", "from . import\n",
+           "$(ls\n", "f!(a, b\n", "with! x\n    y\n", "x = ${\n", "elif a:\n    b\n", "else:\n    b\n", "return )\n", "a ? ? b\n", "1 = x\n", "del f()\n",
+           "for 1 in y: pass\n", "with a as 1: pass\n", "x = yield = 1\n", "async x\n", "f(**a, *b)\n", "class C(x for x in y): pass\n", "a: int: int\n",
+           "if a:\n    b\n  c\n", "if a:\n\tb\n        c\n", "x = 'a\n", "x = f'{a'\n", "x = f'{a!z}'\n", "x = 0777\n", "x = 1__0\n", 'x = (\n"a" "b\n']
+    for s in BAD + corpus.invalid_seeds():
+        progs.append({"src": s, "mode": "exec", "need": 0, "origin": "rejected"})
     # need / validity per program: from CPython's tree when it parses, from the text otherwise
     import ast as _ast
 
